@@ -169,6 +169,19 @@ def limit_rows(ctx):
     return sorted(set(itertools.product(sorted(rates), sorted(accels), sorted(jerks))))
 
 
+def ratio_rows():
+    """Jerk a thousand times (and more) smaller than the acceleration it opposes: the rate looks
+    linear for the first thousand ticks and still turns round inside a move that is long enough
+    - [(rows, ticks to step)]."""
+    out = []
+    for rate, accel, jerk in ((5000, -2100000, 1000), (1000000, -2001, 1), (0, 5003, -1),
+                              (-7, 50030, -10), (123, -1000, 1), (123, -1001, 1), (0, 30001, -30)):
+        ratio = abs(accel) // abs(jerk)
+        for sgn in (1, -1):
+            out.append(([(sgn * rate, sgn * accel, sgn * jerk)], 2 * ratio + 400))
+    return out
+
+
 def run(ctx):
     rates, accels, jerks, max_ticks = alphabets(ctx)
     rows = sorted(set(itertools.product(rates, accels, jerks)))
@@ -186,6 +199,7 @@ def run(ctx):
     from .. import calcseq                 # pylint: disable=import-outside-toplevel
     part.merge(calcseq.explore(ctx, ['max_rate_t3']))
     check_long_linear(part)
+    part.merge(core.fan_out(ctx, _limit_chunk, ratio_rows()))
     cnt = part.counters
     coverage = {
         "over_limit_states": cnt.get("over_limit_states", 0),
